@@ -376,6 +376,77 @@ def dynamic_alphabet(g, rng, full):
     return ops
 
 
+def core_alphabet():
+    """the add / delete / rename core over 3 of the 4 block names and both rock types"""
+    ops = []
+    for r in R2:
+        ops += [['add_rocktype', r, 1], ['delete_rocktype', r]]
+    ops += [['rename_rocktype', R2[0], R2[1]], ['rename_rocktype', R2[1], R2[0]]]
+    for n in N4[:3]:
+        ops += [['add_block', n, R2[0], 1.0, None], ['add_block', n, R2[1], 1.0, None], ['delete_block', n]]
+    for a, b in itertools.permutations(N4[:3], 2):
+        ops += [['add_connection', a, b, PAY], ['delete_connection', a, b]]
+    return ops
+
+
+def core_renames(g):
+    """every non-identity name map on the universe whose keys are current names and which collides with no
+    unrenamed block (the property's own quantifier), for grids of at most 3 blocks"""
+    names = [b.name for b in g.blocklist]
+    maps = []
+    for k in range(1, len(names) + 1):
+        for keys in itertools.combinations(names, k):
+            rest = set(names) - set(keys)
+            for vals in itertools.permutations(N4, k):
+                if any(a != b for a, b in zip(keys, vals)) and not (set(vals) & rest):
+                    maps.append(['rename_blocks', [[a, b] for a, b in zip(keys, vals)], True])
+    return maps
+
+
+def exhaustive_core(ctx, res, budget_s, max_depth):
+    """the add/delete/rename core, every operation in every distinct valid state, breadth first from the
+    empty grid and from a grid with one rock type and two connected blocks"""
+    t0 = time.time()
+    static = core_alphabet()
+    seeds = [[], [['add_rocktype', R2[0], 1], ['add_block', N4[0], R2[0], 1.0, None], ['add_block', N4[1], R2[0], 1.0, None],
+                  ['add_connection', N4[0], N4[1], PAY]]]
+    seen, frontier = {}, []
+    for s in seeds:
+        d = run_history(G.History([list(o) for o in s]))._real[1][-1].dump if s else G.dump_grid(G.start_grid(None))
+        if d not in seen:
+            seen[d] = True
+            frontier.append(s)
+    hists, lines = [], []
+    depth, complete, napp = 0, True, 0
+    while frontier and depth < max_depth:
+        nxt = []
+        done = 0
+        for path in frontier:
+            if time.time() - t0 > budget_s:
+                complete = False
+                break
+            done += 1
+            g0 = run_history(G.History([list(o) for o in path]))._real[2]
+            for op in static + core_renames(g0):
+                h = run_history(G.History([list(o) for o in path] + [op]))
+                h.dump_from = len(path)
+                st = h._real[1][-1]
+                hists.append(h)
+                lines.append(G.model_line([], h._real[1], dump_from=len(path)))
+                napp += 1
+                if st.cls == 'ok' and not st.applied.exc and st.dump not in seen:
+                    seen[st.dump] = True
+                    nxt.append(path + [op])
+        res.stats['exhaustive-core:depth-%d-states-expanded' % (depth + 1)] = '%d of %d' % (done, len(frontier))
+        frontier = nxt
+        depth += 1
+        res.stats['exhaustive-core:depth-%d-new-states' % depth] = len(nxt)
+    res.stats['exhaustive-core:distinct-states'] = len(seen)
+    res.stats['exhaustive-core:operations-applied'] = napp
+    res.stats['exhaustive-core:complete-to-depth'] = depth if complete else depth - 1
+    return hists, lines
+
+
 def exhaustive(ctx, res, budget_s, max_depth, full):
     """apply every operation of the alphabet in every distinct state reachable from the seeds through
     valid operations (class ok) in at most max_depth steps; distinct = distinct canonical dumps"""
@@ -711,7 +782,10 @@ def run(ctx, scale=1.0, oracle_only=False):
             raise RuntimeError('corpus case %s: harness classifies the last operation as %s, expected %s' % (h.name, got, want))
     # exhaustive
     tt = time.time()
-    eh, el = exhaustive(ctx, res, ctx.n(12, 300) * scale, ctx.n(2, 3), not ctx.quick)
+    eh, el = exhaustive(ctx, res, ctx.n(16, 300) * scale, ctx.n(2, 3), not ctx.quick)
+    ch, cl = exhaustive_core(ctx, res, ctx.n(14, 240) * scale, ctx.n(3, 4))
+    for h, l in zip(ch, cl):
+        hists.append(h); facets.append(('exhaustive_core', True)); lines.append(l)
     res.stats['seconds:exhaustive-real-code'] = round(time.time() - tt, 1); tt = time.time()
     for h, l in zip(eh, el):
         hists.append(h); facets.append(('exhaustive', True)); lines.append(l)
@@ -743,7 +817,7 @@ def run(ctx, scale=1.0, oracle_only=False):
                 res.distinct.add(hashlib.sha1((before + json.dumps(st.op)).encode()).hexdigest()[:16])
         if facet == 'random' and len(res.samples) < 4 and steps:
             res.sample({'start': h.start, 'first_ops': [s.op for s in steps[:3]], 'n_ops': len(steps)})
-    for name in ('corpus', 'exhaustive', 'random', 'after_known_finding', 'pre_class', 'inv_flag'):
+    for name in ('corpus', 'exhaustive', 'exhaustive_core', 'random', 'after_known_finding', 'pre_class', 'inv_flag'):
         res.facet(name)
     res.exhaustive = False
     return res
